@@ -85,7 +85,7 @@ class CHECK(Check):
         if case.get("kind") == "readtwice":
             import io
             from .. import reglib
-            regs = [reglib.mk_register_class(rd, i) for i, rd in enumerate(case["regdefs"])]
+            regs = reglib.mk_register_classes(case["regdefs"])
             F = reglib.mk_file_class(regs)
             try:
                 a, b = F.read(case["content"]), F.read(case["content"])
